@@ -1,7 +1,7 @@
 (* C16 for util/parsenum.h: the model of PARSENUM_EX (Util/Parsenum.v over Util/Strto.v) returns, for
    EVERY C string, exactly what the grammar-level spec (Util/ParsenumSpec.v) prescribes. *)
 From Coq Require Import Arith NArith ZArith List Lia Bool.
-From LCP Require Import Base.CheckedMem Util.ParsenumSpec Util.Strto Util.Parsenum Util.StrtoProofs.
+From LCP Require Import Base.CheckedMem Util.ParsenumSpec Util.Strto Util.ParsenumFloat Util.Parsenum Util.StrtoProofs.
 Import ListNotations.
 Local Open Scope Z_scope.
 
@@ -401,8 +401,8 @@ Qed.
 Theorem parsenum_float_wrapper_proof w min max trailing s sd :
   no_nul s -> (sd_consumed sd <= length s)%nat ->
   exists e,
-    parsenum_ex6 (FT w) (cstr s) min max 0 trailing sd = Ok {| o_errno := e; o_stored := 0 |} /\
-    parsenum_ex4 (FT w) (cstr s) 0 trailing sd = Ok {| o_errno := e; o_stored := 0 |} /\
+    parsenum_ex6 (FT w) (cstr s) min max 0 trailing sd = Ok {| o_errno := e; o_stored := fstore w (sd_bits sd) |} /\
+    parsenum_ex4 (FT w) (cstr s) 0 trailing sd = Ok {| o_errno := e; o_stored := fstore w (sd_bits sd) |} /\
     let converted := sd_consumed sd <> 0%nat in
     let junk := trailing = false /\ sd_consumed sd <> length s in
     (e = EInval <-> (~ converted \/ junk)) /\
@@ -413,7 +413,7 @@ Theorem parsenum_float_wrapper_proof w min max trailing s sd :
      sd_erange sd = false -> e = ENone).
 Proof.
   intros Hn Hk. exists (float_spec s sd trailing).
-  unfold parsenum_ex6, parsenum_ex4. cbn [class_float FT ck]. change (0 =? 0) with true. cbv iota.
+  unfold parsenum_ex6, parsenum_ex4. cbn [class_float FT ck cw]. change (0 =? 0) with true. cbv iota.
   rewrite (parsenum_float_run s sd trailing Hn Hk). cbn [bind].
   split; [reflexivity|]. split; [reflexivity|]. cbv zeta. unfold float_spec.
   destruct (Nat.eqb_spec (sd_consumed sd) 0) as [Z0|Z0].
@@ -503,7 +503,7 @@ Definition parsenum_ex6_unsigned_old (w : Z) (buf : list N) (min max base : Z) (
   Ok {| o_errno := e'; o_stored := wrap_u w val |}.
 
 Definition sd_none : strtod_res :=
-  {| sd_consumed := 0; sd_erange := false; sd_lt_min := false; sd_gt_max := false; sd_class := FFinite |}.
+  {| sd_consumed := 0; sd_erange := false; sd_lt_min := false; sd_gt_max := false; sd_bits := 0 |}.
 
 (* "-1" into uintmax_t with bounds 0 .. UINTMAX_MAX: the old code stored 2^64-1 and reported success;
    the spec, and the code as it is now, say ERANGE *)
@@ -546,9 +546,10 @@ Proof.
 Qed.
 
 Example m3_instance :   (* "nan" (3 characters consumed) passes the bounds 0 .. 1 *)
-  let sd := {| sd_consumed := 3; sd_erange := false; sd_lt_min := false; sd_gt_max := false; sd_class := FNan |} in
+  let sd := mk_sd 3 false 9221120237041090560 0 4607182418800017408 in   (* the quiet NaN; bounds 0.0 and 1.0 *)
   no_nul [110; 97; 110]%N /\ (sd_consumed sd <= length [110; 97; 110]%N)%nat /\
-  parsenum_ex6 (FT 64) (cstr [110; 97; 110]%N) 0 1 0 false sd = Ok {| o_errno := ENone; o_stored := 0 |}.
+  sd_class sd = FNan /\ sd_lt_min sd = false /\ sd_gt_max sd = false /\
+  parsenum_ex6 (FT 64) (cstr [110; 97; 110]%N) 0 1 0 false sd = Ok {| o_errno := ENone; o_stored := 9221120237041090560 |}.
 Proof.
   cbv zeta. unfold no_nul. repeat split; try (simpl; lia); repeat constructor; discriminate.
 Qed.
